@@ -270,7 +270,7 @@ class dictattr(dict):
         >>> assert d.rename(['A', 'B', 'C']) == d.relabel(upper)
         """
         keys = relabel(list(self.keys()), *args, **relabels)
-        return type(self)(**{keys.get(k,k) : v for k, v in self.items()})
+        return type(self)({keys.get(k,k) : v for k, v in self.items()})
 
     def rename(self, *args, **relabels):
         """
